@@ -14,3 +14,5 @@ pub mod stubs;
 pub mod c19;
 #[cfg(kani)]
 pub mod c18;
+#[cfg(kani)]
+pub mod c11;
